@@ -246,6 +246,12 @@ Proof.
   exists q. split; [assumption|]. apply E8. assumption.
 Qed.
 
+(* the transaction that would have created the database, rolled back after it had written pages (SQLite has cut the
+   file back to nothing): finalising its journal publishes nothing *)
+Lemma rolled_back_creation s c : writeable s = true -> pageN s = 0 -> dbfile s = [] ->
+  step s (OCommitJournal c) = (Done, with_dirty s []).
+Proof. intros Hw Hp Hf. cbn [step]. rewrite Hw, Hp, Hf. reflexivity. Qed.
+
 (* the truncate SQLite issues after finalisation *)
 Lemma truncate_spec s n s' o : op_truncate s n = (o, s') ->
   (o = Done -> n = pageN s /\ dbfile s' = firstn (N.to_nat n) (dbfile s)) /\
